@@ -178,7 +178,7 @@ def run_path(job):
             if fails:
                 break
         # every retained step holds the solver state of that iteration
-        if f and not fails and not lite and solver == "vi":
+        if f and not fails and not lite and traj is not None:
             for did, path_ in dirs.items():
                 for st in (steps_in(path_) or []):
                     chk = os.path.join(base, "chk")
@@ -186,7 +186,9 @@ def run_path(job):
                     r = cls.restore(path_, step=st, new_checkpoint_dir=chk)
                     workers.quiet()
                     ops += 1
-                    if int(r.iteration) != st or np.abs(np.asarray(r.values) - traj[st]).max() > 1e-10:
+                    if st >= len(traj):
+                        continue
+                    if int(r.iteration) != st or np.abs(np.asarray(r.values) - traj[st]).max() > 1e-10 * (1 + np.abs(traj[st]).max()):
                         fails.append("retained step %d of d%d restores to iteration %d / values off by %.3g" % (st, did, int(r.iteration), np.abs(np.asarray(r.values) - traj[st]).max()))
     except Exception as e:
         fails.append("raised %s: %s" % (type(e).__name__, str(e)[:200]))
@@ -237,15 +239,18 @@ def run(ctx):
         m_ = RefMachine(dict(case, tables=tabs, init="zero"), (1, 3, 2, 0))
         m_.solve(60)
         if not m_.border:
-            others[name] = (kw, m_.n if m_.n < 60 else 10 ** 6)
+            n_ = m_.n if m_.n < 60 else 10 ** 6
+            for _ in range(10):
+                m_.solve(1)  # a few sweeps past convergence (later solve() calls add one sweep each)
+            others[name] = (kw, n_, [t.copy() for t in m_.traj])
     rp = B.ref_pi(tabs[0], tabs[1], tabs[2], 0.9, 1e-3, "span", B.q_values(tabs[0], tabs[1], tabs[2], 0.9, np.zeros(6)).argmax(1), np.zeros(6), 50, 4, False)
     if not rp["border"] and rp["converged"]:
-        others["pi"] = (dict(gamma=0.9, epsilon=1e-3, max_eval_iter=4), rp["n"])
-    ctx.note("other_solver_instances", {k: "N=%s %s" % (v[1], v[0]) for k, v in others.items()})
-    for name, (kw, N_) in others.items():
+        others["pi"] = (dict(gamma=0.9, epsilon=1e-3, max_eval_iter=4), rp["n"], None)
+    ctx.note("other_solver_instances", {k: "N=%s %s%s" % (v[1], v[0], "" if v[2] is not None else " (listing only)") for k, v in others.items()})
+    for name, (kw, N_, traj_) in others.items():
         for f, m, asy in ([(1, 1, True), (2, 2, False), (3, 1, True)] if q else itertools.product((1, 2, 3), (1, 2), (False, True))):
             for p in paths:
-                jobs.append({"solver": name, "skw": kw, "f": f, "m": m, "async": asy, "eps": kw["epsilon"], "N": N_, "path": list(p), "traj": None, "base": os.path.join(scratch, "c12_%d" % len(jobs))})
+                jobs.append({"solver": name, "skw": kw, "f": f, "m": m, "async": asy, "eps": kw["epsilon"], "N": N_, "path": list(p), "traj": traj_, "base": os.path.join(scratch, "c12_%d" % len(jobs))})
     if q:  # one configuration at depth 3 as well
         for p in [p for p in itertools.product(alphabet, repeat=3) if p[0][0] == "s"]:
             jobs.append({"f": 2, "m": 2, "async": True, "eps": inst[Ns[0]], "N": Ns[0], "path": list(p), "traj": traj, "base": os.path.join(scratch, "c12_%d" % len(jobs))})
